@@ -32,8 +32,9 @@ ASSUMPTIONS = [
 ]
 EXPECTED_PROBES = ['error_then_request', 'exception_then_request', 'transient_exhausted_then_request', 'wrapped_around']
 
-OUTCOMES = ['ok', 's404', 's401', 's400', 'perm500', 'trans_ok', 'trans6', 'exc']
-VIAS = ['get', 'post', 'put', 'delete', 'request', 'shell.header', 'shell.counter', 'shell.inject']
+OUTCOMES = ['ok', 's404', 's401', 's400', 'perm500', 'trans_ok', 'trans6', 'exc', 'exc_timeout', 'exc_chunked', 'exc_connect_timeout']
+VIAS = ['get', 'post', 'put', 'delete', 'request', 'shell.header', 'shell.counter', 'shell.inject',
+        'shell.monitor_heads', 'shell.monitor_bootstrapped', 'shell.peer_log_monitor', 'shell.points', 'shell.raw_bytes', 'shell.pending', 'shell.mempool_post']
 
 
 def gen(seed, tier):
@@ -91,6 +92,12 @@ def execute(scn, want_log=False):
             return core.Reply(500, core.temp_error_body())
         if o == 'exc':
             return core.Reply.error('ConnectionError', 'scripted')
+        if o == 'exc_timeout':
+            return core.Reply.error('ReadTimeout', 'scripted')
+        if o == 'exc_chunked':
+            return core.Reply.error('ChunkedEncodingError', 'scripted: truncated response')
+        if o == 'exc_connect_timeout':
+            return core.Reply.error('ConnectTimeout', 'scripted')
         raise core.HarnessError(o)
 
     tr = core.Transport(sim, handler)
@@ -130,6 +137,20 @@ def execute(scn, want_log=False):
                     shell.contracts['tz1abc'].counter()
                 elif v == 'shell.inject':
                     shell.injection.operation.post(operation='00')
+                elif v == 'shell.monitor_heads':
+                    next(iter(shell.monitor.heads.main()), None)
+                elif v == 'shell.monitor_bootstrapped':
+                    next(iter(shell.monitor.bootstrapped()), None)
+                elif v == 'shell.peer_log_monitor':
+                    next(iter(shell.network.peers['idPeer'].log(monitor=True)), None)
+                elif v == 'shell.points':
+                    shell.network.points(_filter='running')
+                elif v == 'shell.raw_bytes':
+                    shell.head.context.raw.bytes(depth=1)
+                elif v == 'shell.pending':
+                    shell.mempool.pending_operations()
+                elif v == 'shell.mempool_post':
+                    shell.mempool.post({'minimal_fees': '1'})
                 else:
                     raise core.HarnessError(v)
             except RpcError as e:
@@ -143,7 +164,7 @@ def execute(scn, want_log=False):
             states.add(f'{scn["n"]}/{i % scn["n"]}/{prev}/{st["outcome"]}')
             if prev in ('s404', 's401', 's400', 'perm500'):
                 bump('error_then_request')
-            if prev == 'exc':
+            if prev.startswith('exc'):
                 bump('exception_then_request')
             if prev == 'trans6':
                 bump('transient_exhausted_then_request')
@@ -192,6 +213,11 @@ def simplify(scn):
             c = json.loads(json.dumps(scn))
             c['steps'][i]['via'] = 'get'
             yield c
+        if st['outcome'] not in ('ok', 's404', 'exc'):
+            c = json.loads(json.dumps(scn))
+            c['steps'][i] = {'via': st['via'], 'outcome': 'exc'} if st['outcome'].startswith('exc_') else c['steps'][i]
+            if st['outcome'].startswith('exc_'):
+                yield c
         if st['outcome'] not in ('ok', 's404'):
             for o in ('ok', 's404'):
                 c = json.loads(json.dumps(scn))
